@@ -1,8 +1,9 @@
 #!/bin/sh
-# usage: try_seeded.sh <property id> <patch.diff> [tier]   — apply a seeded change to /repo, run the check, undo it.
+# usage: try_seeded.sh <property id> <patch.diff> [tier]   — apply a seeded change to $VERIF_REPO (default /repo), run the check, undo it.
 pid=$1; patch=$2; tier=${3:-quick}
-cd /verif
-git -C /repo apply "$patch" || { echo "patch does not apply"; exit 2; }
+V=$(cd "$(dirname "$0")/.." && pwd); R=${VERIF_REPO:-/repo}
+cd "$V"
+git -C "$R" apply "$patch" || { echo "patch does not apply"; exit 2; }
 ./check "$pid" --tier "$tier"; rc=$?
-git -C /repo apply -R "$patch" || echo "WARNING: could not revert $patch"
+git -C "$R" apply -R "$patch" || echo "WARNING: could not revert $patch"
 echo "check-exit=$rc"
